@@ -6,7 +6,8 @@
 EXTENDS Regex, TLC
 CONSTANTS Sigma,      \* alphabet (set of code points)
           MaxLen,     \* subjects up to this length
-          Level,      \* 1: all SREs of depth <= 1;  2: depth <= 2 with one atomic operand in binary nodes;  3: all of depth <= 2
+          Level,      \* 1: all SREs of depth <= 1;  2: depth <= 2 with one atomic operand in binary nodes;  3: all of depth <= 2;
+                      \* 4: (seq|or)(unary(seq(atom, atom)), atom) and mirrored
           Fam         \* "full" | "anchor" | "case" : which atoms / operators are used
 VARIABLES r, s
 vars == <<r, s>>
@@ -29,7 +30,9 @@ SREs == LET l0 == AtomsOf
         IN  IF Level = 0 THEN l0
             ELSE IF Level = 1 THEN l1
             ELSE IF Level = 2 THEN UNION {l1, Unary(l1), Binary(l1, l0), Binary(l0, l1)}
-            ELSE UNION {l1, Unary(l1), Binary(l1, l1)}
+            ELSE IF Level = 3 THEN UNION {l1, Unary(l1), Binary(l1, l1)}
+            \* level 4: a unary operator over a two-element sequence, next to an atom (the "(op a b)" spellings)
+            ELSE LET us == Unary({<<"seq", x, y>> : x \in l0, y \in l0}) IN UNION {Binary(us, l0), Binary(l0, us)}
 
 Init == r \in SREs /\ s = <<>>
 Next == Len(s) < MaxLen /\ \E c \in Sigma : s' = Append(s, c) /\ r' = r
@@ -56,7 +59,7 @@ Laws == /\ Same(<<"star", <<"star", q>>>>, <<"star", q>>)
         /\ Same(Norm(<<"nocase", <<"nocase", r>>>>, FALSE), Norm(<<"nocase", r>>, FALSE))
         /\ (\A sp \in Spans(s) : MatchD(q, s, sp[1], sp[2]) => MatchD(Norm(<<"nocase", r>>, FALSE), s, sp[1], sp[2]))
 \* (4) submatch bookkeeping: one entry per (sub ..) node; a report built from a real parse is accepted
-GroupsWF == WF(r) /\ Len(Groups(r, FALSE)) = NumSubs(r) /\ Depth(r) <= 2
+GroupsWF == WF(r) /\ Len(Groups(r, FALSE)) = NumSubs(r) /\ Depth(r) <= 3
 \* a whole-string match with every group unmatched or spanning everything that its body matches is an acceptable report
 ReportSound ==
    Matches(r, s) =>
